@@ -75,6 +75,60 @@ def finding_for(pid, ob, findings):
     return None
 
 
+def bounded_contract(q, size_sets, note=""):
+    """plan.bounded entry: the contract of q checked by full unrolling at the given fixed sizes with all values symbolic
+    (complete for those sizes, silent beyond).  Reported under coverage.bounded, never counted as proved."""
+    def run_(ctx):
+        out = []
+        plan_axioms = list(getattr(ctx, "plan_axioms", ()))
+        for sizes in size_sets:
+            t0 = time.time()
+            try:
+                rep = spec.verify_function(ctx.repo, ctx.registry, q, fixed=dict(sizes), max_paths=200)
+            except KeyError:
+                out.append({"what": "bounded:%s" % q, "bound": sizes, "passed": False, "error": True,
+                            "detail": "function not found"})
+                continue
+            ctx.reports.setdefault("bounded:" + q, rep)
+            obs = list(rep.obligations)
+            res = {"what": "bounded:%s" % q.split("::")[1], "bound": dict(sizes), "obligations": len(obs),
+                   "function_sha256": rep.sha256, "note": note}
+            if rep.unsupported or not obs:
+                res.update(passed=False, undecided=True, detail="; ".join(rep.unsupported) or "no obligations")
+                out.append(res)
+                continue
+            # concretise: sums and range-bounded quantifiers are unrolled (sizes are numerals now)
+            bad, und = [], []
+            span = max([v for v in sizes.values() if isinstance(v, int)] + [3]) + 1
+            for ob in obs:
+                cache, table, keep = {}, {}, []
+                sol = z3.Solver()
+                sol.set("timeout", 20000)
+                for h in list(ob.hyps) + plan_axioms:
+                    sol.add(smt.abstract_lambdas(smt.expand_concrete(z3.simplify(h), cache, True, span), table, keep)
+                            if smt._has_quantifier(h) or smt._mentions_decl([h], "u_sum") else h)
+                g = smt.expand_concrete(z3.simplify(ob.goal), cache, True, span)
+                sol.add(z3.Not(g))
+                r = sol.check()
+                if r == z3.sat:
+                    ob.verdict, ob.model = "refuted", smt.extract_model(sol.model(), rep.leaves)
+                    bad.append(ob)
+                elif r != z3.unsat:
+                    und.append(ob.name)
+            res["seconds"] = round(time.time() - t0, 2)
+            if bad:
+                path, reproduced, outp = replay.write_and_run(ctx.pid, bad[0], ctx.plan, ctx)
+                res.update(passed=False, detail="refuted at sizes %s: %s" % (sizes, bad[0].name), native=reproduced,
+                           replay_script=open(path).read())
+            elif und:
+                res.update(passed=False, undecided=True, detail="solver undecided: " + ", ".join(und[:4]))
+            else:
+                res.update(passed=True, detail="all %d obligations hold for every value at these sizes" % len(obs))
+            out.append(res)
+        return out
+    return run_
+
+
 def bounded_refutation(ctx, plan, pid, q, axioms_plain=()):
     """bounded stand-in used only to look for a failing input (never counted as proof)"""
     rep0 = ctx.reports[q]
@@ -104,6 +158,8 @@ def run(pid, tier, seed, do_replay=None):
     ctx = Ctx(pid, tier, seed)
     mod = importlib.import_module("props." + pid)
     plan = mod.plan(ctx)
+    ctx.plan = plan
+    ctx.plan_axioms = list(plan.extra_axioms)
     findings = load_known_findings()
     status = {"violations": [], "undecided": [], "errors": [], "known": []}
     all_obs = []
